@@ -43,6 +43,7 @@ func BuildSchemaValidationV31(schema *base.Schema, validationString string, fiel
 						B: *val,
 						N: 1,
 					}
+					schema.Minimum = nil // The most recent lower bound wins, as in the 3.0 generator
 				} else {
 					log.Printf("Validation rule '%s' has an invalid numeric value '%s'", ruleName, ruleValue)
 				}
@@ -51,8 +52,7 @@ func BuildSchemaValidationV31(schema *base.Schema, validationString string, fiel
 			}
 		case "gte":
 			if specType == "integer" || specType == "number" {
-				val := swagtool.ParseNumber(ruleValue)
-				schema.Minimum = val
+				setMinimumV31(schema, ruleName, ruleValue)
 			} else {
 				log.Printf("Validation rule '%s' is only applicable to numeric fields, got %s", ruleName, specType)
 			}
@@ -63,6 +63,7 @@ func BuildSchemaValidationV31(schema *base.Schema, validationString string, fiel
 						B: *val,
 						N: 1,
 					}
+					schema.Maximum = nil // The most recent upper bound wins, as in the 3.0 generator
 				} else {
 					log.Printf("Validation rule '%s' has an invalid numeric value '%s'", ruleName, ruleValue)
 				}
@@ -71,34 +72,36 @@ func BuildSchemaValidationV31(schema *base.Schema, validationString string, fiel
 			}
 		case "lte":
 			if specType == "integer" || specType == "number" {
-				val := swagtool.ParseNumber(ruleValue)
-				schema.Maximum = val
+				setMaximumV31(schema, ruleName, ruleValue)
 			} else {
 				log.Printf("Validation rule '%s' is only applicable to numeric fields, got %s", ruleName, specType)
 			}
 		case "min":
 			if specType == "string" {
-				val := swagtool.ParseInteger(ruleValue)
-				schema.MinLength = val
+				if val := parseNonNegativeV31(ruleName, ruleValue); val != nil {
+					schema.MinLength = val
+				}
 			} else if specType == "integer" || specType == "number" {
-				schema.Minimum = swagtool.ParseNumber(ruleValue)
+				setMinimumV31(schema, ruleName, ruleValue)
 			} else {
 				log.Printf("Validation rule 'min' is only applicable to string or numeric fields, got %s", specType)
 			}
 		case "max":
 			if specType == "string" {
-				val := swagtool.ParseInteger(ruleValue)
-				schema.MaxLength = val
+				if val := parseNonNegativeV31(ruleName, ruleValue); val != nil {
+					schema.MaxLength = val
+				}
 			} else if specType == "integer" || specType == "number" {
-				schema.Maximum = swagtool.ParseNumber(ruleValue)
+				setMaximumV31(schema, ruleName, ruleValue)
 			} else {
 				log.Printf("Validation rule 'max' is only applicable to string or numeric fields, got %s", specType)
 			}
 		case "len":
 			if specType == "string" {
-				length := swagtool.ParseInteger(ruleValue)
-				schema.MinLength = length
-				schema.MaxLength = length
+				if length := parseNonNegativeV31(ruleName, ruleValue); length != nil {
+					schema.MinLength = length
+					schema.MaxLength = length
+				}
 			} else {
 				log.Printf("Validation rule 'len' is only applicable to string fields, got %s", specType)
 			}
@@ -110,22 +113,27 @@ func BuildSchemaValidationV31(schema *base.Schema, validationString string, fiel
 			}
 		case "minItems":
 			if specType == "array" {
-				val := swagtool.ParseInteger(ruleValue)
-				schema.MinItems = val
+				if val := parseNonNegativeV31(ruleName, ruleValue); val != nil {
+					schema.MinItems = val
+				}
 			} else {
 				log.Printf("Validation rule 'minItems' is only applicable to array fields, got %s", specType)
 			}
 		case "maxItems":
 			if specType == "array" {
-				val := swagtool.ParseInteger(ruleValue)
-				schema.MaxItems = val
+				if val := parseNonNegativeV31(ruleName, ruleValue); val != nil {
+					schema.MaxItems = val
+				}
 			} else {
 				log.Printf("Validation rule 'maxItems' is only applicable to array fields, got %s", specType)
 			}
 		case "uniqueItems":
 			if specType == "array" {
-				val := swagtool.ParseBool(ruleValue)
-				schema.UniqueItems = val
+				if val := swagtool.ParseBool(ruleValue); val != nil {
+					schema.UniqueItems = val
+				} else {
+					log.Printf("Validation rule 'uniqueItems' has an invalid boolean value '%s'", ruleValue)
+				}
 			} else {
 				log.Printf("Validation rule 'uniqueItems' is only applicable to array fields, got %s", specType)
 			}
@@ -200,4 +208,37 @@ func BuildSchemaValidationV31(schema *base.Schema, validationString string, fiel
 			}
 		}
 	}
+}
+
+// setMinimumV31 sets an inclusive lower bound; an unparsable value leaves the schema untouched
+func setMinimumV31(schema *base.Schema, ruleName string, ruleValue string) {
+	val := swagtool.ParseNumber(ruleValue)
+	if val == nil {
+		log.Printf("Validation rule '%s' has an invalid numeric value '%s'", ruleName, ruleValue)
+		return
+	}
+	schema.Minimum = val
+	schema.ExclusiveMinimum = nil // The most recent lower bound wins, as in the 3.0 generator
+}
+
+// setMaximumV31 sets an inclusive upper bound; an unparsable value leaves the schema untouched
+func setMaximumV31(schema *base.Schema, ruleName string, ruleValue string) {
+	val := swagtool.ParseNumber(ruleValue)
+	if val == nil {
+		log.Printf("Validation rule '%s' has an invalid numeric value '%s'", ruleName, ruleValue)
+		return
+	}
+	schema.Maximum = val
+	schema.ExclusiveMaximum = nil // The most recent upper bound wins, as in the 3.0 generator
+}
+
+// parseNonNegativeV31 parses a length/count. Negative or unparsable values are rejected, as in the 3.0 generator
+func parseNonNegativeV31(ruleName string, ruleValue string) *int64 {
+	val := swagtool.ParseUInteger(ruleValue)
+	if val == nil || *val > uint64(1<<63-1) {
+		log.Printf("Validation rule '%s' has an invalid value '%s'", ruleName, ruleValue)
+		return nil
+	}
+	converted := int64(*val)
+	return &converted
 }
